@@ -176,8 +176,8 @@ CLAIMS["C18"] = dict(
          "exactly the cross product, on both code paths (portable: magnitudes and signs of the same factors), the 128-bit tails return sign(ab-cd) / "
          "(ab==cd) on every ordering and no 128-bit value is narrowed; GetSegmentIntersectPt's result lies on both lines and 'parallel' is the "
          "vanishing of the direction cross product; CrossProduct, DotProduct, DistanceSqr, PerpendicDistFromLineSqrd, GetClosestPointOnSegment equal "
-         "their defining formulas.",
-    note="That Multiply recombines the partial products correctly, floating-point rounding of the formulas, the clamping branches, PointInPolygon's numeric content and Area's loop are NOT decided.",
+         "their defining formulas; Multiply's returned {lo, hi} satisfies hi 2^64 + lo == a b identically (bit slices: lo_k(x) = x - 2^k hi_k(x)).",
+    note="Floating-point rounding of the formulas, the clamping branches, PointInPolygon's numeric content and Area's loop are NOT decided.",
     technique="static analysis: type rule on the AST + abstract interpretation over sign/ordering cells + interval analysis",
     design="§3 E3, §4 C18", engine="E3")
 
